@@ -26,7 +26,7 @@ TRUSTED_BASE = [
     "in-memory sockets of tools/netsim; the server decides a request is complete by its framing",
 ]
 ASSUMPTIONS = ["the caller supplies no Content-Length / Transfer-Encoding header", "str bodies contain no lone surrogates",
-               "a file object that offers tell() also offers seek()"]
+               ]
 EXHAUSTIVE = {"quick": False, "thorough": False}
 CASE_TIMEOUT = 30
 
@@ -455,7 +455,7 @@ def rand_body(rng, bs):
         text = rng.random() < 0.35
         r = rng.random()
         return ["file", {"text": text, "data": rand_text(rng, n) if text else rand_bytes(rng, n), "pos": rng.choice([0, 0, 1, bs, n]),
-                         "has_tell": r > 0.15, "tell_ok": rng.random() > 0.15, "has_seek": r > 0.15, "seek_ok": rng.random() > 0.15}]
+                         "has_tell": r > 0.15, "tell_ok": rng.random() > 0.15, "has_seek": r > 0.15 and rng.random() > 0.1, "seek_ok": rng.random() > 0.15}]
     chunks = []
     for _ in range(rng.randint(0, 4)):
         c = rng.random()
